@@ -132,6 +132,7 @@ KEY, DS, DLV, CDS, ZONEMD, CAA, CSYNC, NSEC3 = 25, 43, 32769, 59, 63, 257, 62, 5
 DNAME, NSEC, NSAP_PTR, BRID, HHIT = 39, 47, 23, 68, 67
 LP, TKEY = 107, 249
 DSYNC = 66
+AMTRELAY, IPSECKEY = 260, 45
 FIELD_TYPES_ANY = {
     SPF: "txt", NINFO: "txt", AVC: "txt", RESINFO: "txt", WALLET: "txt",
     AFSDB: [2, "U"], RT: [2, "U"], RP: ["U", "U"],
@@ -142,6 +143,7 @@ FIELD_TYPES_ANY = {
     CSYNC: [6, "bitmap"], NSEC3: [4, "C8", "C8", "bitmap"],
     DNAME: ["X"], NSEC: ["X", "bitmap"], BRID: ["R"], HHIT: ["R"],      # "X": uncompressed name, case kept in the digest
     LP: [2, "X"], TKEY: ["X", 12, "C16", "C16"], DSYNC: [5, "X"],
+    AMTRELAY: [("gw", 2, 1, 127)],     # ("gw", n, i, mask): n header octets, then nothing / IPv4 / IPv6 / a name ("X")
 }
 
 
@@ -157,7 +159,7 @@ def bitmap_windows(b):
 def bitmap_bytes(windows):
     return b"".join(bytes([w, len(bm)]) + bytes(bm) for w, bm in windows)
 FIELD_TYPES_IN = {KX: [2, "U"], PX: [2, "U", "U"], DHCID: ["R"], NSAP: ["R"], WKS: [5, "R"],
-                  NAPTR: [4, "C8", "C8", "C8", "N"], NSAP_PTR: ["X"]}
+                  NAPTR: [4, "C8", "C8", "C8", "N"], NSAP_PTR: ["X"], IPSECKEY: [("gw", 3, 1, 255), "R"]}
 
 
 def field_spec(rdclass, rdtype):
@@ -317,6 +319,20 @@ def mk_rdata(rdclass, rdtype, rd):
             return cls(rdclass, rdtype, struct.unpack("!H", pb(0))[0], piece_name(rd, 1))
         if rdtype == DSYNC:
             return cls(rdclass, rdtype, *struct.unpack("!HBH", pb(0)), piece_name(rd, 1))
+        if rdtype in (AMTRELAY, IPSECKEY):
+            hdr = pb(0)
+            gt = hdr[1] & (127 if rdtype == AMTRELAY else 255)
+            k = 1
+            gw = None
+            if gt in (1, 2):
+                gw = (dns.ipv4 if gt == 1 else dns.ipv6).inet_ntoa(pb(1))
+                k = 2
+            elif gt == 3:
+                gw = piece_name(rd, 1)
+                k = 2
+            if rdtype == AMTRELAY:
+                return cls(rdclass, rdtype, hdr[0], bool(hdr[1] >> 7), gt, gw)
+            return cls(rdclass, rdtype, hdr[0], gt, hdr[2], gw, pb(k) if len(rd) > k else b"")
         if rdtype == TKEY:
             return cls(rdclass, rdtype, piece_name(rd, 0), *struct.unpack("!IIHH", pb(1)), pb(2)[2:], pb(3)[2:])
         if rdtype in (OPENPGPKEY, DHCID, NSAP, EUI48, EUI64, BRID, HHIT):
@@ -477,6 +493,22 @@ def rdata_pieces(rd):
             return [struct.pack("!H", rd.preference), [2, labels_of(rd.fqdn)]]
         if t == DSYNC:
             return [struct.pack("!HBH", int(rd.rrtype), int(rd.scheme), rd.port), [2, labels_of(rd.target)]]
+        if t in (AMTRELAY, IPSECKEY):
+            if t == AMTRELAY:
+                gt, gw = rd.relay_type, rd.relay
+                out = [bytes([rd.precedence, gt | (int(rd.discovery_optional) << 7)])]
+            else:
+                gt, gw = rd.gateway_type, rd.gateway
+                out = [bytes([rd.precedence, gt, rd.algorithm])]
+            if gt == 1:
+                out.append(dns.ipv4.inet_aton(gw))
+            elif gt == 2:
+                out.append(dns.ipv6.inet_aton(gw))
+            elif gt == 3:
+                out.append([2, labels_of(gw)])
+            if t == IPSECKEY:
+                out.append(bytes(rd.key))
+            return out
         if t == TKEY:
             return [[2, labels_of(rd.algorithm)], struct.pack("!IIHH", rd.inception, rd.expiration, rd.mode, rd.error),
                     struct.pack("!H", len(rd.key)) + rd.key, struct.pack("!H", len(rd.other)) + rd.other]
@@ -692,8 +724,9 @@ NAME_FIELDS = {NS: ["n"], CNAME: ["n"], PTR: ["n"], MX: [2, "n"], SOA: ["n", "n"
                RRSIG: [18, "n", None], SIG: [18, "n", None], TSIG: ["n", None],
                AFSDB: [2, "n"], RT: [2, "n"], RP: ["n", "n"], KX: [2, "n"], PX: [2, "n", "n"],
                NAPTR: [4, "c8", "c8", "c8", "n"], DNAME: ["n"], NSAP_PTR: ["n"], NSEC: ["n", None],
-               LP: [2, "n"], TKEY: ["n", None], DSYNC: [5, "n"]}
-IN_ONLY_NAME_TYPES = (SRV, KX, PX, NAPTR, NSAP_PTR)
+               LP: [2, "n"], TKEY: ["n", None], DSYNC: [5, "n"],
+               AMTRELAY: [("gw", 2, 1, 127)], IPSECKEY: [("gw", 3, 1, 255), None]}
+IN_ONLY_NAME_TYPES = (SRV, KX, PX, NAPTR, NSAP_PTR, IPSECKEY)
 
 
 def name_fields(rdclass, rdtype):
@@ -754,6 +787,18 @@ def walk(wire):
                         rnames.append(ls)
                     elif f is None:
                         break
+                    elif isinstance(f, tuple):
+                        if o + f[1] > off + rdlen:
+                            raise WalkError("gateway header runs off the rdata")
+                        gt = wire[o + f[2]] & f[3]
+                        o += f[1]
+                        if gt == 1:
+                            o += 4
+                        elif gt == 2:
+                            o += 16
+                        elif gt == 3:
+                            ls, o = name_at(o)
+                            rnames.append(ls)
                     elif f == "c8":
                         if o >= off + rdlen:
                             raise WalkError("counted string runs off the rdata")
@@ -942,6 +987,18 @@ def gen_rdata(rng, pool, rdclass, rdtype):
                 out.append([0, nm()])
             elif f == "X":
                 out.append([2, nm()])
+            elif isinstance(f, tuple):
+                _, n, i, mask = f
+                gt = rng.choice([0, 1, 2, 3, 3])
+                hdr = bytearray(rng.randrange(256) for _ in range(n))
+                hdr[i] = (hdr[i] & ~mask & 0xFF) | gt
+                out.append(bytes(hdr))
+                if gt == 1:
+                    out.append(bytes(rng.randrange(256) for _ in range(4)))
+                elif gt == 2:
+                    out.append(bytes(rng.randrange(256) for _ in range(16)))
+                elif gt == 3:
+                    out.append([2, nm()])
             elif f == "C16":
                 n = rng.choice([0, 1, 16, 300])
                 out.append(struct.pack("!H", n) + bytes(rng.randrange(256) for _ in range(n)))
